@@ -34,7 +34,7 @@ REQUIRED_MONITORS = ["I_equals_weighted_mean", "Fq_outputs_equal_weighted_means"
                      "refuses_too_many_dispersed", "trace_covers_mesh_once", "no_stale_result"]
 REQUIRED_BUCKETS = {
     "quick": ["dims:1", "dims:2", "dims:3", "dims:4", "dims:5", "mesh:2..99", "mesh:100", "mesh:101..199",
-              "mesh:200..400", "trunc:2", "trunc:1", "trunc:0", "cutoff:0", "cutoff:1e-5", "cutoff:placed", "cutoff:tie",
+              "mesh:200..400", "trunc:2", "trunc:1", "trunc:0", "trunc:1:parameter-without-loop-slot", "cutoff:0", "cutoff:1e-5", "cutoff:placed", "cutoff:tie",
               "dim:1d", "dim:2d", "have_Fq", "no_Fq", "Fq_in_2d", "hollow", "invalid_points>0", "loops>=3_cross_chunk",
               "lane:asan", "refusal"] + ["dist:" + d for d in sas.DIST],
 }
@@ -59,6 +59,17 @@ def gen_cases(tier, seed):
                           "tier": tier, "group": m, "lane": "plain", "cost": 1.0})
         cases.append({"id": "%s/refusal" % m, "kind": "refusal", "model": m, "seed": seed, "group": m,
                       "lane": "plain", "cost": 0.3})
+        # a distribution cut to one point on a parameter that gets no loop slot (max_pd others are dispersed):
+        # every size parameter of every model with more dispersible parameters than loop slots, in turn
+        i = sas.info(m)
+        for dim in ("2d", "1d"):
+            names = i.parameters.pd_2d if dim == "2d" else i.parameters.pd_1d
+            if len(names) > i.parameters.max_pd and (dim == "2d" or not i.parameters.orientation_parameters):
+                nv = len([p_ for p_ in i.parameters.call_parameters if p_.name in names and p_.type == "volume"])
+                for j in range(nv if tier == "thorough" else min(nv, 6)):
+                    cases.append({"id": "%s/noslot-%s-%d" % (m, dim, j), "kind": "value", "model": m, "shape": 6,
+                                  "noslot": [dim, j], "seed": seed, "tier": tier, "group": m, "lane": "plain", "cost": 1.0})
+                break
     san = SAN_MODELS if tier == "quick" else models
     for m in san:
         for s in range(3 if tier == "quick" else 6):
@@ -93,7 +104,12 @@ def build_shape(i, case, rng):
     s = case["shape"]
     tier = case.get("tier", "quick")
     dim = "2d" if s % 3 == 2 else "1d"
-    pars = sas.base_pars(i, case["seed"]*1000 + s)
+    noslot = case.get("noslot")
+    if noslot:
+        dim = noslot[0]
+    elif s % 12 == 6 and i.parameters.orientation_parameters:
+        dim = "2d"                     # truncation cases alternate between 1-D and 2-D
+    pars = sas.base_pars(i, case["seed"]*1000 + s + (7*noslot[1] if noslot else 0))
     cand = sas.usable_pd(i, pars, dim)
     meta = {"dim": dim, "trunc": None}
     if not cand:
@@ -106,9 +122,13 @@ def build_shape(i, case, rng):
     cls = classes[(s + case["seed"]) % len(classes)]
     ndims = 1 + (s*7 + case["seed"]) % 5
     ndims = max(1, min(ndims, len(cand), max_pd))
+    if noslot:
+        trunc = 1
     if trunc is not None:
         cls = "2..99"
         ndims = min(max(ndims, 2), len(cand), max_pd)
+    if noslot:
+        ndims = max_pd + 1
     if cls == "~1000" and dim == "1d" and len(i.parameters.orientation_parameters) > 0:
         # orientation-averaged 1-D models cost ~0.3 ms per point in the oracle: keep q small instead
         pass
@@ -129,7 +149,7 @@ def build_shape(i, case, rng):
     while cost() > budget and cls != "2..99" and trunc is None:
         cls = order_cls[order_cls.index(cls) + 1]
         meta["downsized"] = True
-    sizes = sas.factor_sizes(cls, ndims, rng)
+    sizes = sas.factor_sizes(cls, min(ndims, max_pd), rng)
     order = rng.permutation(len(cand))
     chosen = [cand[k] for k in order[:ndims]]
     # rotate which table position is truncated
@@ -139,6 +159,11 @@ def build_shape(i, case, rng):
                 and pars[p.name] > max(p.limits[0], 0)]
         if vols:
             tpar = vols[(s//18 + case["seed"] + len(i.id)) % len(vols)]
+            if noslot:
+                tpar = vols[noslot[1] % len(vols)]
+                chosen = [cand[k] for k in order]
+                sizes = [2, 2, 3, 2, 2, 2]
+                meta["noslot"] = True
             chosen = [p for p in chosen if p.name != tpar.name][:max(0, ndims - 1)]
     for p, n in zip(chosen, sizes):
         dist = sas.DIST[int(rng.integers(len(sas.DIST)))]
@@ -260,6 +285,8 @@ def run_value(case, rec):
         rec.bucket("trunc:0")
     if meta["has_offnominal_single"]:
         rec.bucket("trunc:1")
+        if meta.get("noslot"):
+            rec.bucket("trunc:1:parameter-without-loop-slot")
     # cutoff class
     cmode = ["0", "1e-5", "placed"][(case["shape"] + case["seed"]) % 3]
     cutoff = 0.0
